@@ -43,3 +43,73 @@ def boundary_records(trace_iter, results):
             yield {"ev": "done", "id": e["id"], "ok": bool(ok)}
         elif ev == "hang":
             yield {"ev": "done", "id": e["id"], "ok": False}
+
+
+def routing_records(trace_iter, results, rules_by_job):
+    """Events for spec/trace/Routing.tla. rules_by_job: job id -> list of rule dicts
+    {probe, kind, m, keyspace, after: [probe ids in the downstream blocks], preds, feedback}.
+    The `job` record needs the replica sets and the downstream block ids, which are known only
+    after the whole job has been read, so a job's records are buffered."""
+    job = None
+    buf = []
+    cur = {}
+    replicas = {}
+    probe_block = {}
+
+    def close(th):
+        em = cur.pop(th, None)
+        if em is not None:
+            buf.append(em)
+
+    def flush():
+        nonlocal buf, cur, replicas, probe_block
+        for th in list(cur):
+            close(th)
+        rules = []
+        for r in rules_by_job.get(job, []):
+            to = []
+            for a in r["after"]:
+                if a in probe_block:
+                    to.append(probe_block[a])
+            rules.append({"probe": r["probe"], "kind": r["kind"], "m": r.get("m", 1),
+                          "keyspace": r.get("keyspace", r["probe"]), "to": to,
+                          "preds": r.get("preds", []), "feedback": bool(r.get("feedback", False))})
+        blocks = [{"b": b, "replicas": [{"h": h, "r": rr} for (h, rr) in sorted(reps)]}
+                  for b, reps in sorted(replicas.items())]
+        out = [{"ev": "job", "id": job, "blocks": blocks, "rules": rules}]
+        rule_probes = {r["probe"] for r in rules}
+        out += [e for e in buf if e["probe"] in rule_probes]
+        buf, cur, replicas, probe_block = [], {}, {}, {}
+        return out
+
+    for e in trace_iter:
+        ev = e.get("ev")
+        if ev == "job":
+            job = e["id"]
+            buf, cur, replicas, probe_block = [], {}, {}, {}
+        elif ev == "worker" and e.get("what") == "start":
+            b, h, r = (int(x) for x in e["at"].split("."))
+            replicas.setdefault(b, set()).add((h, r))
+        elif ev == "probe":
+            th = e["th"]
+            close(th)
+            b, h, r = (int(x) for x in e["at"].split("."))
+            probe_block.setdefault(e["id"], b)
+            el = e["el"]
+            v = el.get("v", 0)
+            cur[th] = {"ev": "emit", "probe": e["id"], "fb": b, "fh": h, "fr": r, "k": el["k"],
+                       "v": small(v) if isinstance(v, int) else 0, "dests": [], "_el": el_str(el)}
+        elif ev == "enq":
+            th = e["th"]
+            em = cur.get(th)
+            if em is not None and em["_el"] == el_str(e["el"]):
+                ep = e["to"].split("<")[0]
+                b, h, r = (int(x) for x in ep.split("."))
+                em["dests"].append({"b": b, "h": h, "r": r})
+        elif ev in ("done", "hang"):
+            res = results.get(job, {})
+            ok = ev == "done" and all(hh.get("ok") for hh in res.get("hosts", [])) and not res.get("hang")
+            for rec in flush():
+                rec.pop("_el", None)
+                yield rec
+            yield {"ev": "done", "id": job, "ok": bool(ok)}
